@@ -121,6 +121,10 @@ impl Vm {
       self.fiber_queue.push_back(new_fiber);
       self.current_fun = current_fun;
       self.load_ip();
+    } else {
+      // the callee ran to completion without a frame of its own (a native or
+      // a class without an initializer): a launch statement leaves no value
+      self.fiber.drop();
     }
 
     ExecutionSignal::Ok
